@@ -9,7 +9,8 @@ RULE = ("seeded two-endpoint simulations with moderate workloads: (a) general lo
         "duplication, reordering, all controllers, small windows, pacing caps, key updates, 0-RTT, retry, timers serviced "
         "late / early / spuriously); (b) black-holed directions for the first K datagrams so that PTOs fire repeatedly and "
         "the server reaches the anti-amplification limit during the handshake; (c) tail loss with a tiny fixed window so "
-        "that probes must pass a full congestion window; every drive of every connection ends with a probe that is checked; "
+        "that probes must pass a full congestion window; (d) SERVER_EARLY: the server application writes 0.5-RTT data before "
+        "Connected with small windows / a Retry-validated address and the early datagrams dropped; every drive of every connection ends with a probe that is checked; "
         "non-trivial = at least one PTO fired (pto_count grew across a handle_timeout)")
 
 
@@ -34,14 +35,40 @@ def tail(rng, d):
     return d
 
 
+def early(rng, d):
+    """0.5-RTT data: the server application writes before Connected, with a small real-controller window
+    (or a validated address via Retry so that a whole initial window of early data is in flight) and the
+    early datagrams lost: the handshake completes with a full window of unacknowledged 1-RTT packets"""
+    d["SERVER_EARLY"] = 1
+    d["SERVER_STREAMS"] = rng.range(1, 2)
+    d["STREAM_BYTES"] = rng.choice([3000, 8000, 20000])
+    d["WRITE_CHUNK"] = 100000
+    k = rng.below(3)
+    if k == 0:
+        d["CONTROLLER"] = 3
+        d["FIXED_WINDOW"] = rng.choice([2400, 2400, 2500, 3000])
+    elif k == 1:
+        d["RETRY"] = 1
+        d["CONTROLLER"] = rng.choice([0, 1])
+    else:
+        d["CONTROLLER"] = rng.choice([0, 1, 2])
+    lo = rng.range(1, 5)
+    d["DROP_MASK"] = ((1 << rng.range(1, 10)) - 1) << lo
+    d["DROP_MASK_DIR"] = 2
+    d["LOSS"] = rng.choice([0, 0, 50, 100])
+    return d
+
+
 def gen(rng, n):
     cases = []
     for i in range(n):
         d = S.base(rng, small=True)
         if d["STREAM_BYTES"] > 8000:
             d["STREAM_BYTES"] = 8000
-        fam = i % 4
-        if fam == 1:
+        fam = i % 5
+        if fam == 4:
+            early(rng, d)
+        elif fam == 1:
             blackhole(rng, d)
             if rng.chance(1, 3):
                 d["RETRY"] = 1
